@@ -73,7 +73,7 @@ Definition lbl_ok (s : sys) (l : label) : Prop :=
   match l with
   | LDeliver x _ => end_of s (other x) <> EClosed
   | LInject x seg => end_of s (other x) <> EClosed /\ sok seg
-  | LFair _ => end_of s SA <> EClosed /\ end_of s SB <> EClosed
+  | LFair _ | LFairT _ _ _ => end_of s SA <> EClosed /\ end_of s SB <> EClosed
   | _ => True
   end.
 Fixpoint run_ok (c : config) (s : sys) (ls : list label) : Prop :=
@@ -98,7 +98,7 @@ Definition lbl_okb (s : sys) (l : label) : bool :=
   match l with
   | LDeliver x _ => not_closedb (end_of s (other x))
   | LInject _ _ => false
-  | LFair _ => not_closedb (end_of s SA) && not_closedb (end_of s SB)
+  | LFair _ | LFairT _ _ _ => not_closedb (end_of s SA) && not_closedb (end_of s SB)
   | _ => true
   end.
 Fixpoint run_okb (c : config) (s : sys) (ls : list label) : bool :=
@@ -110,8 +110,8 @@ Lemma not_closedb_ok e : not_closedb e = true -> e <> EClosed.
 Proof. destruct e; cbn; congruence. Qed.
 Lemma lbl_okb_ok s l : lbl_okb s l = true -> lbl_ok s l.
 Proof.
-  destruct l; cbn; auto using not_closedb_ok; try discriminate.
-  intros H. apply andb_true_iff in H. destruct H. split; apply not_closedb_ok; assumption.
+  destruct l; cbn; auto using not_closedb_ok; try discriminate;
+  (intros H; apply andb_true_iff in H; destruct H; split; apply not_closedb_ok; assumption).
 Qed.
 Lemma run_okb_ok c ls : forall s, run_okb c s ls = true -> run_ok c s ls.
 Proof.
@@ -430,16 +430,16 @@ Proof.
   - apply arrive_nc. apply Hnc.
 Qed.
 
-Lemma fair_half_rel c s s' x : SR s s' -> sinv c s ->
+Lemma fair_half_t_rel c s s' x ms one : SR s s' -> sinv c s ->
   end_of s SA <> EClosed -> end_of s SB <> EClosed ->
-  SR (fair_half c s x) (fair_half (C' c) s' x) /\ sinv c (fair_half c s x) /\
-  end_of (fair_half c s x) SA <> EClosed /\ end_of (fair_half c s x) SB <> EClosed.
+  SR (fair_half_t c s x ms one) (fair_half_t (C' c) s' x ms one) /\ sinv c (fair_half_t c s x ms one) /\
+  end_of (fair_half_t c s x ms one) SA <> EClosed /\ end_of (fair_half_t c s x ms one) SB <> EClosed.
 Proof.
-  intros HR Hi HA HB. unfold fair_half.
-  destruct (tick_rel c s s' x 101 HR Hi) as [A1 _].
-  pose proof (tick_sinv c s x 101 Hi) as I1.
-  pose proof (tick_nc s x 101 SA HA) as NA1. pose proof (tick_nc s x 101 SB HB) as NB1.
-  set (s1 := fst (tick s x 101)) in *. set (s1' := fst (tick s' x 101)) in *.
+  intros HR Hi HA HB. unfold fair_half_t.
+  destruct (tick_rel c s s' x ms HR Hi) as [A1 _].
+  pose proof (tick_sinv c s x ms Hi) as I1.
+  pose proof (tick_nc s x ms SA HA) as NA1. pose proof (tick_nc s x ms SB HB) as NB1.
+  set (s1 := fst (tick s x ms)) in *. set (s1' := fst (tick s' x ms)) in *.
   clearbody s1 s1'.
   destruct (emit_rel c s1 s1' x A1 I1) as (A2 & B2 & _).
   destruct (emit_sinv c s1 x I1) as [I2 _].
@@ -447,7 +447,8 @@ Proof.
   destruct (emit s1 x) as [[s2 segs] bad]. destruct (emit s1' x) as [[s2' segs'] bad'].
   cbn [fst snd] in A2, B2, I2, NA2, NB2.
   rewrite (srel_net s2 s2' x A2), map_length.
-  destruct (deliver_all_rel c (S (length (net_of s2 x))) x s2 s2' A2 I2 NA2 NB2) as (A3 & I3 & NA3 & NB3).
+  set (fuel := if one then S (Nat.div (length (net_of s2 x)) 3) else S (length (net_of s2 x))).
+  destruct (deliver_all_rel c fuel x s2 s2' A2 I2 NA2 NB2) as (A3 & I3 & NA3 & NB3).
   set (s3 := deliver_all _ c s2 x) in *. set (s3' := deliver_all _ (C' c) s2' x) in *.
   clearbody s3 s3'.
   destruct (recv_rel s3 s3' SA A3) as [A4 _].
@@ -456,6 +457,22 @@ Proof.
   pose proof (recv_sinv c _ SB I4) as I5.
   split; [exact A5 | split; [exact I5|]].
   split; apply recv_nc; apply recv_nc; assumption.
+Qed.
+
+Lemma fair_half_rel c s s' x : SR s s' -> sinv c s ->
+  end_of s SA <> EClosed -> end_of s SB <> EClosed ->
+  SR (fair_half c s x) (fair_half (C' c) s' x) /\ sinv c (fair_half c s x) /\
+  end_of (fair_half c s x) SA <> EClosed /\ end_of (fair_half c s x) SB <> EClosed.
+Proof. unfold fair_half. apply fair_half_t_rel. Qed.
+
+Lemma fair_rounds_t_rel c ms one k : forall s s', SR s s' -> sinv c s ->
+  end_of s SA <> EClosed -> end_of s SB <> EClosed ->
+  SR (fair_rounds_t k c s ms one) (fair_rounds_t k (C' c) s' ms one) /\ sinv c (fair_rounds_t k c s ms one).
+Proof.
+  induction k as [|k IH]; intros s s' HR Hi HA HB; cbn [fair_rounds_t]; [auto|].
+  destruct (fair_half_t_rel c s s' SA ms one HR Hi HA HB) as (A1 & I1 & NA1 & NB1).
+  destruct (fair_half_t_rel c _ _ SB ms one A1 I1 NA1 NB1) as (A2 & I2 & NA2 & NB2).
+  apply IH; assumption.
 Qed.
 
 Lemma fair_rounds_rel c k : forall s s', SR s s' -> sinv c s ->
@@ -490,7 +507,7 @@ Theorem sys_step_rel c s s' l : SR s s' -> sinv c s -> lbl_ok s l ->
 Proof.
   intros HR Hi Hok. unfold sys_step. rewrite (r_pan _ _ _ _ HR).
   destruct (panicked s); [cbn [fst snd]; destruct l; auto|].
-  destruct l as [x|x bytes|x|x|x ms|x|x i|x i|x i|x seg|k|]; cbn [shift_label].
+  destruct l as [x|x bytes|x|x|x ms|x|x i|x i|x i|x seg|k|k ms one|]; cbn [shift_label].
   - (* LOpen *)
     pose proof (srel_end s s' x HR) as He.
     destruct (end_of s x) as [| |t|] eqn:E; destruct (end_of s' x) as [| |t'|] eqn:E';
@@ -583,6 +600,10 @@ Proof.
   - (* LFair *)
     cbn [lbl_ok] in Hok. destruct Hok as [HA HB].
     destruct (fair_rounds_rel c k s s' HR Hi HA HB) as [A B].
+    cbn [fst snd]. auto.
+  - (* LFairT *)
+    cbn [lbl_ok] in Hok. destruct Hok as [HA HB].
+    destruct (fair_rounds_t_rel c ms one k s s' HR Hi HA HB) as [A B].
     cbn [fst snd]. auto.
   - cbn [fst snd]. auto.
 Qed.
